@@ -193,6 +193,13 @@ fn c17_coords_4() {
     coords_n::<4>()
 }
 
+#[kani::proof]
+#[kani::unwind(6)]
+#[kani::stub(core::str::validations::run_utf8_validation, stdlite::run_utf8_validation)]
+fn c17_coords_3() {
+    coords_n::<3>()
+}
+
 // ------------------------------------------------------------------------------------------
 // crop_window_text: the routine both renderers use. For every short window text, error position
 // and radius: no panic, output is terminal-clean, the rebased span is in range, ordered, on a
